@@ -1939,6 +1939,9 @@ class Interp:
             return None
         if values is None and func.module is not ctx.mod:
             return None
+        if not hasattr(self, "fused_funcs"):
+            self.fused_funcs = set()
+        self.fused_funcs.add(func.qname)            # read through the loop that consumes it: the source lints look at it as well
         from .loader import _own_nodes
 
         def leaves_loop(stmts):
